@@ -77,6 +77,8 @@ func (r *run) betweenSteps() []step {
 		{"evm-store", "eip155"}, {"ont-transfer", "contract"}, {"neo-put", "batch"}, {"evm-ong-transfer", "msg"},
 		{"evm-store", "trace"}, {"param-set-snapshot", "param"}, {"evm-create", "ledger"}, {"neo-destroy", "contract"},
 		{"evm-kill", "eip155"}, {"ont-transfer-user", "ledger"}, {"deploy-neo", "contract"}, {"evm-store", "contract"},
+		{"evm-create-fresh", "msg"}, {"evm-create-fresh", "trace"}, {"evm-factory-create", "eip155"}, {"evm-factory-revert", "contract"},
+		{"evm-create-fresh-kill", "param"}, {"evm-factory-create2", "batch"}, {"ont-transfer-all", "contract"}, {"neo-delete-first", "ledger"},
 	} {
 		a, b := rnd()
 		steps = append(steps, step{Kind: ke[0], Entry: ke[1], A: a, B: b})
